@@ -115,9 +115,11 @@ def limited(cmd):
 
 
 def gen_ops(kind, seed, ncases, length, profile, blackbox=False):
-    cmd = [HBIN, "gen", kind, str(seed), str(ncases), str(length), profile]
-    if blackbox:
-        cmd.append("blackbox")
+    capmode = "any"
+    if ":" in profile:
+        profile, capmode = profile.split(":")
+    cmd = [HBIN, "gen", kind, str(seed), str(ncases), str(length), profile,
+           "blackbox" if blackbox else "whitebox", capmode]
     rc, out, err = run(cmd, timeout=600)
     if rc != 0:
         raise RuntimeError("generator failed: " + err)
@@ -296,8 +298,8 @@ def worker(args):
             w = op_of(l).split(" ")[0]
             hist[w] = hist.get(w, 0) + 1
         body = "\n".join(c)
-        nontriv = bool(re.search(r"prob=[^ ]*!| wq=[1-9]|get \d+ -> none|panic", body)) and \
-            bool(re.search(r"get \d+ -> some", body))
+        nontriv = (bool(re.search(r"prob=[^ ]*!| wq=[1-9]|get \d+ -> none|panic", body)) and
+                   bool(re.search(r"get \d+ -> some", body))) or kind in ("sketch", "deque")
         res["nontrivial"] += 1 if nontriv else 0
         res["ops"] += len(c) - 1
         m = mc[idx] if idx < len(mc) else []
